@@ -958,7 +958,18 @@ pub fn input_of_class(rng: &mut Rng, w: &World, class: usize) -> Vec<u8> {
             b.extend(encode_field(EF_UNIQUE_ID, &rng.bytes(32), v5, None));
             let pt = hostile_cookie_plaintext(rng, &w.session);
             let idx = rng.below(w.server.keys.len() as u64) as usize;
-            let c = w.server.seal_cookie(rng, idx, &pt);
+            let c = if rng.chance(1, 3) {
+                // a genuine cookie cut to an arbitrary length: the key id prefix stays valid
+                let l = match rng.below(3) {
+                    0 => rng.usize(0, 32),
+                    1 => *rng.pick(&[0usize, 4, 6, 8, 16, 20, 21, 22, 23, 24, 28]),
+                    _ => rng.usize(0, w.cookie.len()),
+                };
+                let l = if v5 { l } else { l & !3 };
+                w.cookie[..l.min(w.cookie.len())].to_vec()
+            } else {
+                w.server.seal_cookie(rng, idx, &pt)
+            };
             b.extend(encode_field(EF_NTS_COOKIE, &c, v5, None));
             if rng.chance(1, 4) {
                 b.extend(encode_field(EF_NTS_COOKIE, &w.cookie, v5, None));
